@@ -177,7 +177,8 @@ Proof.
   { destruct (hsh seed (Z.pos c) n 7 mod 5 <? 3); intros H; [|discriminate]. apply (Hsome _ H).
     assert (0 <= hsh seed (Z.pos c) n 7 mod 3) by (apply Z.mod_pos_bound; lia).
     rewrite <- (Z.add_0_r t) at 1. apply Z.add_le_mono_l. apply Z.mul_nonneg_nonneg; lia. }
-  destruct (policy =? 4); [destruct (n mod 2 =? 1); intros H; apply (Hsome _ H); lia|]. discriminate.
+  destruct (policy =? 4); [destruct (n mod 2 =? 1); intros H; apply (Hsome _ H); lia|].
+  destruct (policy =? 5); [destruct (n mod 2 =? 1); intros H; apply (Hsome _ H); lia|]. discriminate.
 Qed.
 
 (* ---------- the general scope: the system c anywhere among top-level devices AND system simulations
